@@ -14,4 +14,18 @@ TEXTS = {
                       "generated Rust tables); the harness/driver comparison for the algorithms (hashfunc, from_bytes, find_sub_element, ...) "
                       "which are modelled by hand. The spec-lookup theorems are proved for an arbitrary Spec and instantiated with realSpec.",
     },
+    "C19": {
+        "design_ref": "DESIGN.md §8 C19",
+        "technique": "Lean 4: Brzozowski-derivative bisimulation certificate per regenerated DFA table (decide +kernel) + generic soundness "
+                     "theorem; reference matcher proved equal to the inductive regex semantics; conformance run for hand-written validators",
+        "level_text": "For every table-driven validator found in regex.rs the theorem `validate_k s <-> s matches the published regex` is proved "
+                      "for ALL byte strings (certificate check in the kernel over the regenerated table, lifted by checkDfa_sound). A changed "
+                      "table cell or accepting set re-opens the obligation and the Lean side computes the shortest distinguishing string, which "
+                      "is replayed on the real validator. For the 15 hand-written validators the claim is partial: the reference semantics "
+                      "(matchD = Matches, proved) is compared with the real functions on W-method style conformance tests.",
+        "level_note": "Trusted: Lean kernel; axioms propext, Classical.choice, Quot.sound; translator (tables, accepting sets, loop-shape check); "
+                      "Rx.parseRegex as the definition of the regex dialect. Three tables (12, 18, 26) are known findings: pinned by content "
+                      "hash, negation witnesses proved in Lean and replayed on the implementation on every run. Hand-written validators: "
+                      "differential only (not a theorem about the Rust code).",
+    },
 }
